@@ -80,11 +80,14 @@ package dispatch
 //@   ensures [labels-child-wins] len(cr.Labels) != 0 ==> (forall ln model.LabelName :: ln in cr.Labels ==> result.RouteOpts.Labels[ln] == cr.Labels[ln])
 //@   ensures [labels-parent-kept] len(cr.Labels) != 0 ==> (forall ln model.LabelName :: !(ln in cr.Labels) && old(ln in inheritedOpts(parent).Labels) ==> result.RouteOpts.Labels[ln] == old(inheritedOpts(parent).Labels[ln]))
 //@   ensures [parent-untouched] parent != nil ==> parent.RouteOpts == old(parent.RouteOpts)
+//@   ensures [matchers-of-all-three-kinds] len(result.Matchers) == len(cr.Match) + len(cr.MatchRE) + len(cr.Matchers)
+//@   ensures [new-style-matchers-kept] forall i int :: 0 <= i && i < len(cr.Matchers) ==> cr.Matchers[i] in elems(result.Matchers)
+//@   ensures [time-intervals-of-the-route] result.RouteOpts.MuteTimeIntervals == cr.MuteTimeIntervals && result.RouteOpts.ActiveTimeIntervals == cr.ActiveTimeIntervals
 //@   ensures [children] len(result.Routes) == len(cr.Routes) && (forall i int :: 0 <= i && i < len(result.Routes) ==> result.Routes[i] != nil && result.Routes[i].parent == result)
 //@   loop 1 invariant rangeindex < len(cr.GroupBy) && fresh(opts.GroupBy)
 //@   loop 1 invariant forall ln model.LabelName :: (ln in opts.GroupBy) == (exists i int :: 0 <= i && i <= rangeindex && cr.GroupBy[i] == ln)
-//@   loop 2 invariant matchers == nil || fresh(matchers)
-//@   loop 3 invariant matchers == nil || fresh(matchers)
+//@   loop 2 invariant (matchers == nil || fresh(matchers)) && len(matchers) == len(visited) && (forall k string :: (k in visited) ==> (k in cr.Match)) && cr.Match == pre(cr.Match) && dom(cr.Match) == pre(dom(cr.Match))
+//@   loop 3 invariant (matchers == nil || fresh(matchers)) && len(matchers) == len(cr.Match) + len(visited) && (forall k string :: (k in visited) ==> (k in cr.MatchRE)) && cr.MatchRE == pre(cr.MatchRE) && dom(cr.MatchRE) == pre(dom(cr.MatchRE)) && dom(cr.Match) == pre(dom(cr.Match)) && cr.Match == pre(cr.Match)
 //@   assigns deref(counter)
 //@   noeffect sort.Sort
 
@@ -108,13 +111,14 @@ package dispatch
 //@ func (*aggrGroup).insert
 //@   props C14 C06
 //@   requires ag != nil && alert != nil && ag.alerts != nil && ag.alerts.alerts != nil && ag.logger != nil && tracer != nil && ctx != nil
-//@            && store.ErrDestroyed != nil && store.ErrLimited != nil && store.ErrDestroyed != store.ErrLimited && bucketOK(ag.alerts, nameOf(alert))
+//@            && store.ErrDestroyed != nil && store.ErrLimited != nil && store.ErrDestroyed != store.ErrLimited && bucketOK(ag.alerts, nameOf(alert)) && deadEmpty(ag.alerts)
 //@   requires forall f model.Fingerprint :: f in ag.alerts.alerts ==> ag.alerts.alerts[f] != nil
 //@   after call Tracer).Start assume res0 != nil && res1 != nil
 //@   after call errors.Is assume res0 == (ret("SetIfNotOlder") == store.ErrDestroyed)
 //@   ensures [never-older] old(fpA(alert) in ag.alerts.alerts) && old(ag.alerts.alerts[fpA(alert)].UpdatedAt) > alert.UpdatedAt
 //@             ==> result && dom(ag.alerts.alerts) == old(dom(ag.alerts.alerts)) && vals(ag.alerts.alerts) == old(vals(ag.alerts.alerts))
 //@   ensures [monotone] forall f model.Fingerprint :: old(f in ag.alerts.alerts) ==> f in ag.alerts.alerts && ag.alerts.alerts[f].UpdatedAt >= old(ag.alerts.alerts[f].UpdatedAt)
+//@   ensures [destroyed-group-refuses] old(ag.alerts.destroyed) ==> !result
 //@   ensures [refused-only-if-destroyed] !result ==> old(ag.alerts.destroyed) && dom(ag.alerts.alerts) == old(dom(ag.alerts.alerts)) && vals(ag.alerts.alerts) == old(vals(ag.alerts.alerts))
 //@   ensures [inserted] result && ag.alerts.perAlertLimit <= 0 && !old(ag.alerts.destroyed) ==> fpA(alert) in ag.alerts.alerts && ag.alerts.alerts[fpA(alert)].UpdatedAt >= alert.UpdatedAt
 //@   ensures [others] forall f model.Fingerprint :: f != fpA(alert) ==> (f in ag.alerts.alerts) == old(f in ag.alerts.alerts) && ag.alerts.alerts[f] == old(ag.alerts.alerts[f])
@@ -155,8 +159,11 @@ package dispatch
 //@   at call dynamic:param:notify assert [copies] forall i int :: 0 <= i && i < len(arg0) ==> fresh(arg0[i])
 //@   at call DeleteIfNotModified assert [delete-only-after-success] called("dynamic:param:notify") && ret("dynamic:param:notify") && arg2
 //@   at call DeleteIfNotModified assert [delete-only-resolved] forall i int :: 0 <= i && i < len(arg1) ==> (arg1[i] != nil && fresh(arg1[i]) && resolvedCopy(arg1[i], ret("time.Now")))
+//@   at call DeleteIfNotModified assert [every-resolved-copy-offered-for-deletion] len(arg1) == len(resolvedSlice) && (forall i int :: 0 <= i && i < len(resolvedSlice) ==> arg1[i] == resolvedSlice[i])
+//@   at call dynamic:param:notify assert [resolved-copies-remembered] count("Alert).ResolvedAt") == len(ret("Alerts).List")) && len(resolvedSlice) == counttrue0("Alert).ResolvedAt")
 //@   ensures [no-notify-no-change] !called("dynamic:param:notify") ==> dom(ag.alerts.alerts) == old(dom(ag.alerts.alerts)) && ag.alerts.destroyed == old(ag.alerts.destroyed)
 //@   ensures [failed-notify-no-change] called("dynamic:param:notify") && !ret("dynamic:param:notify") ==> !called("DeleteIfNotModified")
+//@   loop 1 invariant count("Alert).ResolvedAt") == rangeindex + 1 && len(resolvedSlice) == counttrue0("Alert).ResolvedAt")
 //@   loop 1 invariant rangeindex < len(alerts) && fresh(alertsSlice) && fresh(resolvedSlice) && len(alertsSlice) == rangeindex + 1 && len(resolvedSlice) <= rangeindex + 1 && base(alertsSlice) != base(resolvedSlice)
 //@   loop 1 invariant forall i int :: 0 <= i && i < len(alertsSlice) ==> (alertsSlice[i] != nil && fresh(alertsSlice[i]) && (alertsSlice[i].EndsAt == 0 || alertsSlice[i].EndsAt <= ret("time.Now")))
 //@   loop 1 invariant forall i int :: 0 <= i && i < len(resolvedSlice) ==> (resolvedSlice[i] != nil && fresh(resolvedSlice[i]) && resolvedCopy(resolvedSlice[i], ret("time.Now")))
@@ -177,7 +184,25 @@ package dispatch
 //@   at call sync.Map).CompareAndSwap assert [first-alert-before-swap] called("newAggrGroup") && count("aggrGroup).insert") >= 1
 //@   at call Dispatcher).runAG assert [run-only-published] (called("LoadOrStore") && !ret1("LoadOrStore")) || (called("CompareAndSwap") && ret("CompareAndSwap"))
 //@   ensures [no-silent-loss] count("aggrGroup).insert") >= 1 || called("errors.New")
+//@   ensures [inserted-or-published-or-reported] counttrue0("aggrGroup).insert") >= 1 || (counttrue0("CompareAndSwap") + count("LoadOrStore") - counttrue1("LoadOrStore") == 1) || called("Logger).Error")
+//@   at call errors.New assert [refused-only-at-the-limit] ret("MaxNumberOfAggregationGroups") > 0 && current >= ret("MaxNumberOfAggregationGroups")
+//@   at call newAggrGroup assert [existing-group-tried-first] ret1("sync.Map).Load") ==> called("aggrGroup).insert") && !ret("aggrGroup).insert")
+//@   at call newAggrGroup assert [group-limit-respected] ret("MaxNumberOfAggregationGroups") <= 0 || current < ret("MaxNumberOfAggregationGroups")
+//@   at call sync.Map).CompareAndSwap assert [swap-only-a-group-that-was-seen] loaded
+//@   at call sync.Map).CompareAndSwap assert [swap-under-the-group-key] unbox(arg1, model.Fingerprint) == ret("LabelSet).Fingerprint")
+//@   at call sync.Map).CompareAndSwap assert [swap-in-the-new-group] unbox(arg3, *aggrGroup) == ret("newAggrGroup")
+//@   at call sync.Map).CompareAndSwap assert [reload-between-swaps] count("CompareAndSwap") <= counttrue1("LoadOrStore")
+//@   at call sync.Map).LoadOrStore assert [store-only-when-nothing-was-seen] !loaded && unbox(arg1, model.Fingerprint) == ret("LabelSet).Fingerprint") && unbox(arg2, *aggrGroup) == ret("newAggrGroup")
+//@   at call aggrGroup).resetTimer assert [immediate-flush-only-for-old-alerts] arg1 == 0 && alert.StartsAt + ret("newAggrGroup").opts.GroupWait < first("time.Now")
+//@   ensures [replaced-group-is-cancelled] called("CompareAndSwap") && ret("CompareAndSwap") ==> called("dynamic:field:cancel")
+//@   ensures [published-at-most-once] counttrue0("CompareAndSwap") + count("LoadOrStore") - counttrue1("LoadOrStore") <= 1
+//@   ensures [stored-group-is-counted] count("Int32).Add") == count("LoadOrStore") - counttrue1("LoadOrStore") && count("Int64).Add") == count("LoadOrStore") - counttrue1("LoadOrStore")
+//@   ensures [old-alert-flushes-at-once] (counttrue0("CompareAndSwap") + count("LoadOrStore") - counttrue1("LoadOrStore") == 1) && alert.StartsAt + ret("newAggrGroup").opts.GroupWait < first("time.Now") ==> called("aggrGroup).resetTimer")
+//@   ensures [published-group-is-started-when-running] (counttrue0("CompareAndSwap") + count("LoadOrStore") - counttrue1("LoadOrStore") == 1) && ret("Int32).Load") == DispatcherStateRunning ==> called("Dispatcher).runAG")
 //@   loop 1 invariant called("newAggrGroup") && count("aggrGroup).insert") >= 1
+//@   loop 1 invariant counttrue0("CompareAndSwap") == 0 && count("LoadOrStore") == counttrue1("LoadOrStore") && (called("CompareAndSwap") ==> !ret("CompareAndSwap")) && count("Int32).Add") == 0 && count("Int64).Add") == 0 && !called("aggrGroup).resetTimer") && !called("Dispatcher).runAG")
+//@   loop 1 invariant (loaded ==> count("CompareAndSwap") <= counttrue1("LoadOrStore")) && (!loaded ==> count("CompareAndSwap") <= counttrue1("LoadOrStore") + 1) && count("CompareAndSwap") <= counttrue1("LoadOrStore") + 1
+//@   loop 1 invariant called("time.Now") && called("LabelSet).Fingerprint") && counttrue0("aggrGroup).insert") >= 0
 //@   noeffect newAggrGroup aggrGroup).insert runAG resetTimer cancel Route).Key MaxNumberOfAggregationGroups
 
 //@ func (*Dispatcher).doMaintenance$1
@@ -187,6 +212,10 @@ package dispatch
 //@   at call sync.Map).CompareAndDelete assert [delete-only-destroyed] called("aggrGroup).destroyed") && ret("aggrGroup).destroyed")
 //@   at call DeleteByGroupKey assert [uncount-only-deleted] called("CompareAndDelete") && ret("CompareAndDelete")
 //@   at call atomic.Int64).Add assert [uncount-only-deleted2] called("CompareAndDelete") && ret("CompareAndDelete")
+//@   at call sync.Map).CompareAndDelete assert [stopped-before-removal] called("aggrGroup).stop") && unbox(arg2, *aggrGroup) == unbox(el, *aggrGroup)
+//@   ensures [destroyed-group-is-removed] called("aggrGroup).destroyed") && ret("aggrGroup).destroyed") ==> called("aggrGroup).stop") && called("CompareAndDelete")
+//@   ensures [removed-group-is-uncounted] called("CompareAndDelete") && ret("CompareAndDelete") ==> called("DeleteByGroupKey") && count("Int64).Add") == 1 && count("Int32).Add") == 1
+//@   ensures [sweep-goes-on] result
 //@   noeffect aggrGroup).destroyed aggrGroup).stop DeleteByGroupKey fingerprint GroupKey
 
 // ---- C04 / C05 / C06: what a flush is given. Each tick of the group's timer: the pipeline context carries the tick
@@ -205,5 +234,16 @@ package dispatch
 //@   at call notify.WithGroupKey assert [key-of-this-group] arg1 == ret("aggrGroup).GroupKey")
 //@   at call aggrGroup).resetTimer assert [rearm-to-group-interval] arg1 == cell(ag).opts.GroupInterval
 //@   at call aggrGroup).resetTimer assert [one-rearm-per-flush] count("aggrGroup).resetTimer") == count("aggrGroup).flush")
+//@   at call aggrGroup).flush assert [context-carries-the-group] count("notify.WithGroupKey") == count("aggrGroup).flush") + 1 && count("notify.WithGroupLabels") == count("aggrGroup).flush") + 1
+//@             && count("notify.WithReceiverName") == count("aggrGroup).flush") + 1 && count("notify.WithRepeatInterval") == count("aggrGroup).flush") + 1
+//@             && count("notify.WithMuteTimeIntervals") == count("aggrGroup).flush") + 1 && count("notify.WithActiveTimeIntervals") == count("aggrGroup).flush") + 1
+//@             && count("marker.WithContext") == count("aggrGroup).flush") + 1
+//@   at call notify.WithMuteTimeIntervals assert [mute-intervals-of-the-route] arg1 == cell(ag).opts.MuteTimeIntervals
+//@   at call notify.WithActiveTimeIntervals assert [active-intervals-of-the-route] arg1 == cell(ag).opts.ActiveTimeIntervals
+//@   at call notify.WithGroupLabels assert [labels-of-the-group] arg1 == cell(ag).labels
+//@   ensures [ends-only-when-destroyed-or-cancelled] ret("select") == 1 || (called("aggrGroup).destroyed") && ret("aggrGroup).destroyed"))
 //@   at call aggrGroup).flush assert [rearmed-before-flush] count("aggrGroup).resetTimer") == count("aggrGroup).flush") + 1 && count("notify.WithNow") == count("aggrGroup).flush") + 1
+//@   loop 1 invariant count("notify.WithGroupKey") == count("aggrGroup).flush") && count("notify.WithGroupLabels") == count("aggrGroup).flush") && count("notify.WithReceiverName") == count("aggrGroup).flush")
+//@             && count("notify.WithRepeatInterval") == count("aggrGroup).flush") && count("notify.WithMuteTimeIntervals") == count("aggrGroup).flush") && count("notify.WithActiveTimeIntervals") == count("aggrGroup).flush")
+//@             && count("marker.WithContext") == count("aggrGroup).flush")
 //@   loop 1 invariant count("aggrGroup).resetTimer") == count("aggrGroup).flush") && count("notify.WithNow") == count("aggrGroup).flush")
